@@ -14,7 +14,7 @@ PROPS = {
     "C02": {"level": "model_checking", "engines": [LINOP, ("index_maps", "index_maps", "run"), ("prox", "prox", "run"), ("nufft", "nufft", "run")], "rule": LINOP_RULE, "assumptions": LINOP_ASSUME, "trusted": TLC_BASE},
     "C03": {"level": "model_checking", "engines": [LINOP], "rule": LINOP_RULE, "assumptions": LINOP_ASSUME, "trusted": TLC_BASE},
     "C04": {"level": "model_checking", "engines": [LINOP, ("interp", "interp", "run"), ("nufft", "nufft", "run")], "rule": LINOP_RULE, "assumptions": LINOP_ASSUME, "trusted": TLC_BASE},
-    "C15": {"level": "model_checking", "engines": [("alg_protocol", "alg_protocol", "run"), ("cg", "cg", "run"), ("descent", "descent", "run")],
+    "C15": {"level": "model_checking", "engines": [("alg_protocol", "alg_protocol", "run"), ("cg", "cg", "run"), ("descent", "descent", "run"), ("espirit", "espirit", "run")],
             "rule": "one case per Alg object observed through the trace hooks (driven along TLC-generated call sequences, inner solvers, and the repository's own tests) validated by TLC against AlgLoopTrace.tla; non-trivial = the object performed at least two updates",
             "assumptions": ["protocol model checked for max_iter 0..3 (quick) / 0..4 (thorough) with up to max_iter+2 hand-driven updates", "early-stop probe compares solution arrays bitwise after one further update"],
             "trusted": TLC_BASE + ["tla2tools Json module", "trace hooks in sigpy/_verif.py"]},
@@ -73,6 +73,10 @@ PROPS = {
             "assumptions": ["exact tier: rotation half-angles with rational cos/sin (0, pi, 2atan(4/3), 2atan(3/4)), RF and gradient phases on rational points of the unit circle, length <= 2 (rich) / 3-4 (axis-aligned)", "numeric bounds 1e-9 (identities), 1e-5 (SLR round trip with max|B| <= 0.95)",
                             "abrm_ptx returns the inverse-rotation convention: composition checked in the opposite order"],
             "trusted": TLC_BASE + ["Rat/CRat arithmetic"]},
+    "C17": {"level": "exploration", "engines": [("espirit", "espirit", "run")],
+            "rule": "one case per recorded EspiritCalib run (random and synthetic birdcage k-space; 2-D / 3-D; coils, calib_width, kernel_width, thresh, crop, max_iter varied), validated as a trace; distinct_nontrivial counts the runs",
+            "assumptions": ["SVD / eigen-iteration are floating point: no exact model; what is decided are exact predicates on the output and per-iteration facts", "recovery bound 1.5 % for the repository test's configuration, 6 % for the other synthetic families (calibration region inside k-space); measured 0.5 % / 2.7 %"],
+            "trusted": TLC_BASE + ["tla2tools Json module", "sigpy.mri.sim.birdcage_maps as ground truth"]},
     "C09": {
         "level": "model_checking",
         "engines": [("index_maps", "index_maps", "run")],
@@ -87,6 +91,8 @@ PROPS = {
 HOOK_COMMITS = ["609775d"]
 
 ENGINES = [
+    {"name": "espirit", "path": "harness/engines/espirit.py + spec/PowerMethod.tla, spec/EspiritTrace.tla", "serves_properties": ["C17", "C15"],
+     "kind_free_text": "TLC on exact integer power iteration + replay; EspiritCalib runs validated as traces (norms, crop, phase reference, eigenvalue range and monotonicity, recovery)"},
     {"name": "bloch", "path": "harness/engines/bloch.py + spec/Bloch.tla, CRat.tla, AccuracyTrace.tla", "serves_properties": ["C19"],
      "kind_free_text": "TLC over exact SU(2) hard-pulse recursions (unitarity, zero pulse, composition) + replay; numeric defects of all simulators and SLR round trips validated against spec thresholds"},
     {"name": "sense", "path": "harness/engines/sense.py + spec/Sense.tla", "serves_properties": ["C16", "C01"],
@@ -152,8 +158,7 @@ MANIFEST_TEXT = {
     },
 }
 
-NOT_APPLICABLE = {p: "check not built yet in this round (planned, see DESIGN.md section 5)" for p in
-                  ["C17"]}
+NOT_APPLICABLE = {}
 
 MANIFEST_TEXT["C18"] = {
     "text": "PoissonSearch.tla models the slope bisection on a float lattice with an arbitrary (non-monotone) acceleration function; TLC checks OkIsWithinTol and the liveness property Terminates (the loop without the collapse test is kept as a negative control that must fail). poisson() is run on the real code with _poisson wrapped under a watchdog; every call (probes as slope ranks + integer facts about the mask, RNG state crc, reproducibility memo) is validated by TLC against PoissonTrace.tla.",
@@ -226,3 +231,9 @@ MANIFEST_TEXT["C19"] = {
     "design_ref": "DESIGN.md section 5 C19",
     "note": "model_checking for the exact hard-pulse family; simultaneous-rotation simulators, random waveforms and the SLR round trip are numeric. dzrf designs with max|B| >= 0.95 are rescaled to 0.95 (premise max|B| < 1).",
     "technique": "TLA+ exact SU(2) recursion (TLC) + replay + measured defects validated against spec thresholds"}
+
+MANIFEST_TEXT["C17"] = {
+    "text": "EspiritCalib is stepped on random and synthetic (birdcage maps) k-space over shapes, coil counts, calib/kernel widths, thresholds, crops; per power iteration the harness logs the per-voxel norm deviation and the eigenvalue estimate's range and largest decrease, and for the output the counts of voxels that are neither unit-norm nor zero, of crop mismatches, the phase reference of coil 0, the eigenvalue range and the interior error against the true maps; TLC validates every run against EspiritTrace.tla (protocol + predicates). PowerMethod.tla gives the exact integer power iteration whose monotonicity / lambda_max bound TLC checks and whose states are replayed on the real PowerMethod.",
+    "design_ref": "DESIGN.md section 5 C17",
+    "note": "exploration: no exact model of the SVD / eigen-iteration is attempted; the output predicates are exact, the recovery clause is numeric with calibrated bounds.",
+    "technique": "trace validation by TLC of recorded App runs against a TLA+ trace specification; exact TLA+ power-iteration model"}
